@@ -57,7 +57,7 @@ def plan(tier, seed):
         if i % 4 == 3 or i % 16 == 6:
             # a SoC with a (core-less) CPU: enables the IRQ handler, the CPU's IO-region rules and memory map
             cases[-1]["cpu"] = True
-    for i in range(800 if tier == "quick" else 9000):
+    for i in range(800 if tier == "quick" else 15000):
         cases.append({"kind": "image", "dw": [32, 64][i % 2], "endianness": ["little", "big"][(i // 2) % 2],
                       "seed": "%d/C14/image/%d" % (seed, i)})
     ns = 48 if tier == "quick" else 160
